@@ -20,3 +20,9 @@ theorem tie_C12_handshake_goroutines : Generated.handshakeGoroutines = 2 := by d
 /-- … and they share nothing but the connection itself -/
 theorem tie_C12_handshake_single_owner :
     raceFree (safeIdx Generated.handshakeComponents) Generated.handshakeAccesses = true := by decide
+
+
+/-- **`Close` and `IsClosed` may run at any moment of a `Do` or `Ping`**: on the current source no field of the client
+is re-assigned by one side and touched by the other outside a lock -/
+theorem tie_C12_foreign_close :
+    foreignFree Generated.callerFieldOps Generated.foreignFieldOps = true := by decide
